@@ -350,14 +350,20 @@ func hangCause(sc *Scenario, res *result) string {
 		// the worker's phase loop re-enters at most 10 times (downstream.go OnReceive): a request that is still retrying then is dropped on the floor
 		return "retry-budget-above-9:phase-loop-exhausted"
 	}
-	stalledOnly := len(res.Arrivals) > 0
-	for _, a := range res.Arrivals {
-		if a.Step.Kind != "stall" && a.Step.Kind != "partial-stall" {
-			stalledOnly = false
+	// a request with a body, no per-try timeout, the attempt in flight stalls, and the very first attempt never reached an
+	// upstream: an accept+RST host saw it before any live host did, or (refused host, invisible to the harness) the first
+	// arrival is a retry interval (10 ms) late
+	if n := len(res.Arrivals); n > 0 && sc.TryMs == 0 && (sc.Post || sc.Proto != "Http1") && !sc.allLive() {
+		last, first := res.Arrivals[n-1], res.Arrivals[0]
+		failedFirst := first.AtUs >= 9000
+		for _, t := range res.RstUs {
+			if t < first.AtUs {
+				failedFirst = true
+			}
 		}
-	}
-	if stalledOnly && sc.TryMs == 0 && (sc.Post || sc.Proto != "Http1") && !sc.allLive() {
-		return "request-with-body:first-attempt-failed-before-body-was-sent:no-per-try-timeout"
+		if failedFirst && (last.Step.Kind == "stall" || last.Step.Kind == "partial-stall") {
+			return "request-with-body:first-attempt-failed-before-body-was-sent:no-per-try-timeout"
+		}
 	}
 	// an upstream failure and a timer of the same attempt fired within 5 ms of each other (failure near the attempt's per-try
 	// timeout, or a failure that is not retried near the global timeout)
